@@ -127,6 +127,14 @@ def judge(prop, r, cfg):
                     if k == 1 and empty and im.get("span") == "0":
                         continue     # vacuous cover of an empty span: never an overstatement
                     out.append(("fl", "%s overstated" % nm, True))
+        if im.get("mfl") != im.get("fl"):
+            out.append(("mfl", "mdspan reports %s but its mapping reports %s" % (im.get("mfl"), im.get("fl")), True))
+    elif prop == "C13":
+        for f in ("sz", "emp", "mext", "mst", "rk", "sext"):
+            if differs(f):
+                out.append((f, "%s: mdspan reports %s, extents/mapping give %s" % (f, im.get(f), md.get(f)), True))
+        if im.get("mext") != im.get("ext") or im.get("mst") != im.get("st"):
+            out.append(("mext", "mdspan extent()/stride() differ from its own mapping's", True))
     elif prop == "C14":
         pass
     return out
@@ -162,6 +170,8 @@ def run_property(prop, tier, seed, configs=None, replay=None):
         configs = list(QUICK_CFGS if tier == "quick" else THOROUGH_CFGS)
         if prop == "C14":
             configs = SAN_CFGS if tier == "quick" else SAN_CFGS + ["gcc23", "clang17"]
+        if prop == "C13":
+            configs += ["gcc14", "clang14"]
     if replay:
         rp = json.load(open(replay))
         if rp.get("family") != "M":
